@@ -31,11 +31,14 @@ def constCensus : Census := { localKind := fun k => if k == .const then 1 else 0
 def typesCensus : Census := { cast := 1, inst := 1, typeStmt := 1, tyNode := 1, generic := 1 }
 def attributeCensus : Census := { attr := 1 }
 
-/-- every Luau-only construct the shared AST can express -/
+/-- `x //= y` statements (the input invariant of the `remove_floor_division` theorem) -/
+def idivAssignCensus : Census := { cassign := fun op => if op == .idiv then 1 else 0 }
+
+/-- every Luau-only construct the shared AST can express: the SUM of the nine censuses (a `//=`
+statement counts twice, as a compound assignment and as a floor division) -/
 def luauCensus : Census :=
-  { bin := fun op => if op == .idiv then 1 else 0, ifx := 1, interp := 1, cast := 1, inst := 1,
-    cassign := fun _ => 1, cont := 1, localKind := fun k => if k == .const then 1 else 0,
-    typeStmt := 1, tyNode := 1, generic := 1, attr := 1 }
+  attributeCensus.add (constCensus.add (({} : Census).add (floorDivisionCensus.add (interpolatedStringCensus.add
+    (ifExpressionCensus.add (compoundCensus.add (typesCensus.add continueCensus)))))))
 
 def census_compound_assignment (b : Block) : Nat := countB compoundCensus b
 def census_continue (b : Block) : Nat := countB continueCensus b
@@ -49,6 +52,7 @@ def census_luau_number (_ : Block) : Nat := 0
 def census_const (b : Block) : Nat := countB constCensus b
 def census_types (b : Block) : Nat := countB typesCensus b
 def census_attribute (b : Block) : Nat := countB attributeCensus b
+def census_idiv_assign (b : Block) : Nat := countB idivAssignCensus b
 def census_luau (b : Block) : Nat := countB luauCensus b
 
 /-- the block uses no Luau-only construct (decidable: a `Nat` equation) -/
